@@ -31,3 +31,18 @@ Theorem c13_deletions_keep_wellformed : forall now root deleted src_deleted,
     merge_deletions now root deleted src_deleted = Ok (root', deleted', lg)
     /\ uuids_unique (children_of root') /\ is_group root' = is_group root.
 Proof. exact merge_deletions_ok. Qed.
+
+(* ---------------- self-merge at the level of the whole database (db/MergeSelf.v) ----------------
+   Merging a database with itself returns it unchanged with an empty log: for every database (any
+   size, depth, entries, histories, tombstones) whose UUIDs, root included, are pairwise distinct
+   and whose groups below the root carry a LastModificationTime.  Both conditions are needed
+   (MergeSelf.cx_lm_needed, cx_dup_needed, cx_root_needed, cx_root2_needed).  Idempotence of a
+   SECOND merge of another source is proved per component above and carried end to end by the
+   correspondence sweep; it is false in the corner recorded as finding F15b. *)
+From KP Require Import MergeSelf.
+Theorem c13_merge_self : forall now d, wf_self d -> merge now d d = Ok (d, []).
+Proof. exact merge_self. Qed.
+
+(* the deletion phase of a self-merge is a no-op for ANY tombstone list *)
+Theorem c13_merge_deletions_self : forall now root del, merge_deletions now root del del = Ok (root, del, []).
+Proof. exact merge_deletions_self. Qed.
